@@ -5,6 +5,7 @@ One JSON description of a random catalogue drives both sides: rendered to real h
 Compared (flat integer encoding, identical on both sides): verdict, solution in store order, unimplemented list,
 both trackers' _unmet dicts in order, forms dict order, input store, full attempt/prompt trace; or exception class.
 """
+import zlib
 import configparser
 import importlib
 import json
@@ -229,11 +230,19 @@ def make_fn(tree):
             return 'text'
         if op == 'readv':
             env = dict(env)
-            env[t['var']] = v[t['name']]
+            # a third of the reads go through Mapping.get with a default: a line that is not computed yet must still make the reader wait
+            # (the accessors are Mappings; .get swallows KeyError only, and 'not yet computed' / 'missing input' are not KeyErrors)
+            if zlib.crc32(t['name'].encode()) % 3 == 0:
+                env[t['var']] = v.get(t['name'], 987654)
+            else:
+                env[t['var']] = v[t['name']]
             return ev(t['k'], s, i, v, env)
         if op == 'readi':
             env = dict(env)
-            env[t['var']] = i[t['name']]
+            if zlib.crc32(t['name'].encode()) % 3 == 1:
+                env[t['var']] = i.get(t['name'], 987654)
+            else:
+                env[t['var']] = i[t['name']]
             return ev(t['k'], s, i, v, env)
         if op == 'if':
             return ev(t['t'] if env[t['var']] < t['c'] else t['e'], s, i, v, env)
